@@ -579,3 +579,195 @@ Proof.
                     | match type of E0 with context [if ?c then _ else _] => destruct c; try discriminate end ]);
       cbv beta iota in E0; discriminate.
 Qed.
+
+(* ---- paths with cubic segments whose edges end on the row of their last point ------------------------------------------ *)
+(* the executable test [cubic_exact] is defined in Model/CurveFill.v *)
+Lemma fd6m_fd6 v sh : fd6m v sh = fd6 v sh.
+Proof. reflexivity. Qed.
+
+Lemma chained_to_last w : forall ls first stop, chained_to w first ls stop ->
+  match rev ls with [] => first = stop | e :: _ => e_last_y e + 1 = stop end.
+Proof.
+  induction ls as [|e rest IH]; intros first stop H; cbn [chained_to] in H; [exact H|].
+  destruct H as (_ & _ & _ & R). specialize (IH _ _ R). cbn [rev].
+  destruct (rev rest) as [|l t] eqn:E; cbn [app]; [exact IH | exact IH].
+Qed.
+
+Lemma cubic_contribution a b c d shift ls y :
+  cubic_edge_lines a b c d shift = Some ls -> cubic_exact (a, b, c, d) shift = true ->
+  Forall wf1 ls /\ rowsum ls y = below shift d y - below shift a y.
+Proof.
+  intros H X. destruct (cubic_edge_lines_rows _ _ _ _ _ _ H) as (top & bot & stop & Et & Eb & Le & Ch). cbv zeta in Et, Eb.
+  unfold cubic_exact in X. cbv beta iota in X. rewrite (fd6m_fd6 (py a)), (fd6m_fd6 (py d)) in X. rewrite H, Eb in X.
+  pose proof (chained_to_last _ _ _ _ Ch) as L.
+  assert (ES : stop = bot \/ ls = []).
+  { destruct (rev ls) as [|e t] eqn:E.
+    - right. apply (f_equal (@rev _)) in E. rewrite rev_involutive in E. exact E.
+    - left. apply Z.eqb_eq in X. lia. }
+  assert (Ch' : chained_to (if fd6 (py d) shift <? fd6 (py a) shift then -1 else 1) top ls bot).
+  { destruct ES as [-> | ->]; [exact Ch|]. cbn [chained_to] in *.
+    (* no line at all: top = stop >= bot >= top *)
+    pose proof (fdot6_round_spec _ _ Et bot) as (A1 & _). pose proof (fdot6_round_spec _ _ Eb bot) as (B1 & _).
+    assert (Z.max (fd6 (py a) shift) (fd6 (py d) shift) < 64 * bot + 32) by (apply B1; lia).
+    assert (top <= bot) by (apply A1; lia). lia. }
+  destruct (chained_rowsum _ y _ _ _ Ch') as (_ & S & W). split.
+  - rewrite Forall_forall in W. apply Forall_forall. intros e He. destruct (W e He) as (O & Wd). split; [exact O|].
+    rewrite Wd. destruct (_ <? _); auto.
+  - rewrite S. unfold below.
+    set (Y0 := fd6 (py a) shift) in *. set (Y3 := fd6 (py d) shift) in *.
+    pose proof (fdot6_round_spec _ _ Et y) as (T1 & _). pose proof (fdot6_round_spec _ _ Eb y) as (_ & B1).
+    destruct (Y3 <? Y0) eqn:Sw; [apply Z.ltb_lt in Sw; rewrite Z.min_r in T1 by lia; rewrite Z.max_l in B1 by lia
+                                | apply Z.ltb_ge in Sw; rewrite Z.min_l in T1 by lia; rewrite Z.max_r in B1 by lia];
+      destruct (top <=? y) eqn:A; destruct (y <? bot) eqn:B; destruct (64 * y + 32 <=? Y3) eqn:C; destruct (64 * y + 32 <=? Y0) eqn:D; cbn;
+      try apply Z.leb_le in A; try apply Z.leb_gt in A; try apply Z.ltb_lt in B; try apply Z.ltb_ge in B;
+      try apply Z.leb_le in C; try apply Z.leb_gt in C; try apply Z.leb_le in D; try apply Z.leb_gt in D; lia.
+Qed.
+
+Definition cubs_chain (a d : pt) (cs : list cub) : Prop :=
+  match cs with
+  | [(a', _, _, d')] => a' = a /\ d' = d
+  | [(a', _, _, m); (m', _, _, d')] => a' = a /\ m' = m /\ d' = d
+  | [(a', _, _, m); (m', _, _, n); (n', _, _, d')] => a' = a /\ m' = m /\ n' = n /\ d' = d
+  | _ => False
+  end.
+
+Lemma chop_cubic_chain a b c d : cubs_chain a d (chop_cubic_at_y_extrema (a, b, c, d)).
+Proof.
+  unfold chop_cubic_at_y_extrema. destruct (find_cubic_extrema _ _ _ _) as [|t0 [|t1 rest]]; [cbn; auto | cbn; auto|].
+  unfold chop_cubic_at2 at 1. cbv beta iota zeta.
+  destruct (valid_unit_divide _ _) as [n|]; cbn; auto.
+Qed.
+
+Definition cub_tele (shift : Z) (q : cub) (y : Z) : Z :=
+  let '(a, _, _, d) := q in below shift d y - below shift a y.
+
+Lemma push_cubics_rowsum shift y : forall cs acc acc',
+  push_cubics acc cs shift = Some acc' -> Forall wf1 (lines_of acc) -> (forall q, In q cs -> cubic_exact q shift = true) ->
+  rowsum (lines_of acc') y = rowsum (lines_of acc) y + fold_right (fun q s => cub_tele shift q y + s) 0 cs /\
+  Forall wf1 (lines_of acc').
+Proof.
+  induction cs as [|[[[a b] c] d] r IH]; intros acc acc' H W X; cbn [push_cubics] in H.
+  - injection H as H. subst acc'. cbn [fold_right]. split; [lia | exact W].
+  - destruct (cubic_edge_lines a b c d shift) as [ls|] eqn:Q; [|discriminate].
+    destruct (cubic_contribution _ _ _ _ _ _ y Q (X _ (or_introl eq_refl))) as (Wl & C).
+    destruct (push_curve_item_rowsum acc ls y Wl W) as (P1 & P2).
+    destruct (IH _ _ H P2 ltac:(intros q Hq; apply X; right; exact Hq)) as (A & B). split; [|exact B].
+    rewrite A, P1, C. cbn [fold_right cub_tele]. lia.
+Qed.
+
+Definition cubics_exact (segs : list seg) (shift : Z) : Prop :=
+  forall a b c d q, In (SCubic a b c d) segs -> In q (chop_cubic_at_y_extrema (a, b, c, d)) -> cubic_exact q shift = true.
+
+Lemma build_items_rowsum_all shift y : forall segs acc its,
+  build_items segs shift acc = Some its -> cubics_exact segs shift -> Forall wf1 (lines_of acc) ->
+  rowsum (lines_of its) y = rowsum (lines_of acc) y + tele_s shift segs y /\ Forall wf1 (lines_of its).
+Proof.
+  induction segs as [|s r IH]; intros acc its H CE W; cbn [build_items] in H.
+  - injection H as H. subst its. unfold tele_s. cbn [fold_right]. rewrite rowsum_lines_rev. split; [lia | apply forall_lines_rev; exact W].
+  - assert (CE' : cubics_exact r shift) by (intros a b c d q Hi Hq; apply (CE a b c d q); [right; exact Hi | exact Hq]).
+    destruct s as [p0 p1 | a b c | a b c d].
+    + destruct (line_edge_new p0 p1 shift) as [[e|]|] eqn:LE; [| |discriminate].
+      * pose proof (segment_contribution p0 p1 shift (Some e) y LE) as (We & C).
+        destruct (push_line_item_rowsum acc e y We W) as (P1 & P2).
+        destruct (IH _ _ H CE' P2) as (A & B). split; [|exact B].
+        rewrite A, P1, rowsum_cons, C. unfold tele_s. cbn [fold_right seg_tele]. lia.
+      * pose proof (segment_contribution p0 p1 shift None y LE) as C. cbv beta iota in C.
+        destruct (IH _ _ H CE' W) as (A & B). split; [|exact B]. rewrite A. unfold tele_s. cbn [fold_right seg_tele]. lia.
+    + destruct (push_quads acc (chop_quad_at_y_extrema a b c) shift) as [acc'|] eqn:PQ; [|discriminate].
+      destruct (push_quads_rowsum shift y _ _ _ PQ W) as (P1 & P2).
+      destruct (IH _ _ H CE' P2) as (A & B). split; [|exact B]. rewrite A, P1. unfold tele_s. cbn [fold_right seg_tele].
+      pose proof (chop_quad_chain a b c) as Ch. destruct (chop_quad_at_y_extrema a b c) as [|[[a1 b1] c1] [|[[a2 b2] c2] [|? ?]]]; cbn in Ch; try contradiction.
+      * destruct Ch as (-> & ->). cbn [fold_right fst snd]. lia.
+      * destruct Ch as (-> & -> & ->). cbn [fold_right fst snd]. lia.
+    + destruct (push_cubics acc (chop_cubic_at_y_extrema (a, b, c, d)) shift) as [acc'|] eqn:PC; [|discriminate].
+      destruct (push_cubics_rowsum shift y _ _ _ PC W ltac:(intros q Hq; apply (CE a b c d q); [left; reflexivity | exact Hq])) as (P1 & P2).
+      destruct (IH _ _ H CE' P2) as (A & B). split; [|exact B]. rewrite A, P1. unfold tele_s. cbn [fold_right seg_tele].
+      pose proof (chop_cubic_chain a b c d) as Ch.
+      destruct (chop_cubic_at_y_extrema (a, b, c, d)) as [|[[[a1 ?] ?] d1] [|[[[a2 ?] ?] d2] [|[[[a3 ?] ?] d3] [|? ?]]]]; cbn in Ch; try contradiction.
+      * destruct Ch as (-> & ->). cbn [fold_right cub_tele]. lia.
+      * destruct Ch as (-> & -> & ->). cbn [fold_right cub_tele]. lia.
+      * destruct Ch as (-> & -> & -> & ->). cbn [fold_right cub_tele]. lia.
+Qed.
+
+Lemma path_segs_tele_all shift y : forall vs ps last mv nc segs,
+  path_segs_aux vs ps last mv nc = Some segs -> (nc = false -> last = mv) ->
+  tele_s shift segs y = below shift mv y - below shift last y.
+Proof.
+  induction vs as [|v vs IH]; intros ps last mv nc segs H Hn; cbn [path_segs_aux] in H.
+  - injection H as H. subst segs. destruct nc.
+    + unfold tele_s. cbn [fold_right seg_tele]. lia.
+    + rewrite (Hn eq_refl). unfold tele_s. cbn. lia.
+  - destruct v.
+    + destruct ps as [|p ps']; [discriminate|].
+      destruct (path_segs_aux vs ps' p p false) as [r|] eqn:R; [|discriminate]. cbn [option_map] in H. injection H as H. subst segs.
+      pose proof (IH _ _ _ _ _ R ltac:(reflexivity)) as T.
+      unfold tele_s in *. rewrite fold_right_app. destruct nc.
+      * cbn [fold_right seg_tele]. rewrite T. lia.
+      * cbn [fold_right app]. rewrite (Hn eq_refl), T. lia.
+    + destruct ps as [|p ps']; [discriminate|].
+      destruct (path_segs_aux vs ps' p mv true) as [r|] eqn:R; [|discriminate]. cbn [option_map] in H. injection H as H. subst segs.
+      pose proof (IH _ _ _ _ _ R ltac:(discriminate)) as T. unfold tele_s in *. cbn [fold_right seg_tele]. rewrite T. lia.
+    + destruct ps as [|p1 [|p2 ps']]; try discriminate.
+      destruct (path_segs_aux vs ps' p2 mv true) as [r|] eqn:R; [|discriminate]. cbn [option_map] in H. injection H as H. subst segs.
+      pose proof (IH _ _ _ _ _ R ltac:(discriminate)) as T. unfold tele_s in *. cbn [fold_right seg_tele]. rewrite T. lia.
+    + destruct ps as [|p1 [|p2 [|p3 ps']]]; try discriminate.
+      destruct (path_segs_aux vs ps' p3 mv true) as [r|] eqn:R; [|discriminate]. cbn [option_map] in H. injection H as H. subst segs.
+      pose proof (IH _ _ _ _ _ R ltac:(discriminate)) as T. unfold tele_s in *. cbn [fold_right seg_tele]. rewrite T. lia.
+    + destruct (path_segs_aux vs ps mv mv false) as [r|] eqn:R; [|discriminate]. cbn [option_map] in H. injection H as H. subst segs.
+      pose proof (IH _ _ _ _ _ R ltac:(reflexivity)) as T.
+      unfold tele_s in *. rewrite fold_right_app. destruct nc.
+      * cbn [fold_right seg_tele]. rewrite T. lia.
+      * cbn [fold_right app]. rewrite (Hn eq_refl), T. lia.
+Qed.
+
+(* every row is balanced for every path whose cubic edges end on the row of their last point *)
+Theorem build_edges_curves_balanced_exact p shift es segs :
+  build_edges_curves p shift = Some (Some es) -> path_segs p = Some segs -> cubics_exact segs shift ->
+  (forall y, rowsum es y = 0) /\ Forall wf1 es.
+Proof.
+  unfold build_edges_curves. intros H PS CE. rewrite PS in H.
+  destruct (build_items segs shift []) as [its|] eqn:BI; [|discriminate].
+  destruct (length its <? 2)%nat; [discriminate|]. injection H as H. subst es. fold (lines_of its).
+  unfold path_segs in PS. split.
+  - intros y. destruct (build_items_rowsum_all shift y _ _ _ BI CE ltac:(constructor)) as (A & _).
+    rewrite A, (path_segs_tele_all shift y _ _ _ _ _ _ PS ltac:(reflexivity)).
+    change (lines_of []) with (@nil ledge). change (rowsum [] y) with 0. lia.
+  - exact (proj2 (build_items_rowsum_all shift 0 _ _ _ BI CE ltac:(constructor))).
+Qed.
+
+Theorem exact_path_fill_spec p segs es start stop rc eo out :
+  build_edges_curves p 0 = Some (Some es) -> path_segs p = Some segs -> cubics_exact segs 0 ->
+  fill_spans es start stop rc eo 0 = Some out ->
+  (forall e, In e es -> start <= e_first_y e) -> 0 <= start -> 0 <= stop ->
+  exists acts : Z -> list ledge,
+    (forall yy, start <= yy -> (yy < stop \/ yy = start) -> asc (acts yy) /\ Permutation (acts yy) (active_at es yy)) /\
+    forall yy c, start <= yy -> (yy < stop \/ yy = start) -> (forall e, In e (acts yy) -> x_ok e) ->
+      (cov out yy c <-> masked (wsum (xs_of (active_at es yy)) c) eo = true).
+Proof.
+  intros HB PS CE HF Hs H0 H1. destruct (build_edges_curves_balanced_exact p 0 es segs HB PS CE) as (Bal & W).
+  assert (WF : wf_edges es) by (intros e He; rewrite Forall_forall in W; exact (proj1 (W e He))).
+  destruct (fill_spans_spec es start stop rc eo out HF WF Hs H0 H1) as (acts & Ha & Hc).
+  exists acts. split; [exact Ha|]. intros yy c Hy Hr X. apply Hc; try assumption.
+  rewrite sumw_active, Bal. destruct eo; reflexivity.
+Qed.
+
+(* the boolean test on a segment list implies the hypothesis of the theorem *)
+Lemma segs_exact_spec segs shift : forallb (seg_exact shift) segs = true -> cubics_exact segs shift.
+Proof.
+  intros H a b c d q Hi Hq. rewrite forallb_forall in H. specialize (H _ Hi). cbn [seg_exact] in H.
+  rewrite forallb_forall in H. exact (H q Hq).
+Qed.
+
+Corollary path_cubics_exact_fill_spec p es start stop rc eo out :
+  build_edges_curves p 0 = Some (Some es) -> path_cubics_exact p 0 = 1 ->
+  fill_spans es start stop rc eo 0 = Some out ->
+  (forall e, In e es -> start <= e_first_y e) -> 0 <= start -> 0 <= stop ->
+  exists acts : Z -> list ledge,
+    (forall yy, start <= yy -> (yy < stop \/ yy = start) -> asc (acts yy) /\ Permutation (acts yy) (active_at es yy)) /\
+    forall yy c, start <= yy -> (yy < stop \/ yy = start) -> (forall e, In e (acts yy) -> x_ok e) ->
+      (cov out yy c <-> masked (wsum (xs_of (active_at es yy)) c) eo = true).
+Proof.
+  intros HB PE. unfold path_cubics_exact in PE. destruct (path_segs p) as [segs|] eqn:PS; [|discriminate].
+  destruct (forallb _ segs); [discriminate|]. destruct (forallb (seg_exact 0) segs) eqn:SE; [|discriminate].
+  exact (exact_path_fill_spec p segs es start stop rc eo out HB PS (segs_exact_spec segs 0 SE)).
+Qed.
